@@ -418,8 +418,21 @@ def _series_tie():
     return translated.series_tie()
 
 
-CLAIMS["C06"]["ties"] = (_series_tie,)
-CLAIMS["C06"]["technique"] += " + source-to-Gallina translator tie for the chunked series storage (regenerated and re-proved every run)"
+def _tick_tie():
+    import translated
+    return translated.tick_tie()
+
+
+TICK_NOTE = (" Translator tie (harness/py2coq_tick.py; the two calls into the book and the reporting of expirations in coq/theories/TickPy.v): Market._update_time is REGENERATED "
+             "from /repo's source on every run, statement by statement in source order, and coq/translated/TickC06Proofs.v is re-checked against the generated text: it IS the "
+             "model's clock step `tick` (time advanced by one, both sides losing exactly the orders past their time to live - buys reported before sells - room made in the series, "
+             "the fundamental price recorded, last-trade / mid / market price carried over from the previous step, the market price becoming the previous last-trade or else mid "
+             "price while the market runs), and therefore leaves every entry of every series other than the new step's as it was.")
+CLAIMS["C06"]["ties"] = (_series_tie, _tick_tie)
+CLAIMS["C06"]["technique"] += " + source-to-Gallina translator ties for the chunked series storage and for the clock step (regenerated and re-proved every run)"
+CLAIMS["C08"]["ties"] += (_tick_tie,)
+CLAIMS["C08"]["text"] += TICK_NOTE
+CLAIMS["C06"]["text"] += TICK_NOTE
 CLAIMS["C06"]["text"] += (" Translator tie (harness/py2coq_series.py): Market._fill_until is REGENERATED from /repo's source on every run - which series is assigned, which one is "
                           "extended, whose length is measured and the padding value are read from each statement - and coq/translated/SeriesC06Proofs.v is re-checked against the "
                           "generated text: it is the model's fill_until (every one of the eight series extended from itself to the next multiple of the chunk size with its own padding "
